@@ -104,7 +104,7 @@ func (a ConstInt16) GetN() int {
 /* json
  * -------------------------------------------------------------------------- */
 func (obj ConstInt16) MarshalJSON() ([]byte, error) {
-  return json.Marshal(obj)
+  return json.Marshal(int16(obj))
 }
 /* math
  * -------------------------------------------------------------------------- */
